@@ -29,6 +29,7 @@ import (
 
 // number of known-finding reports made so far (they do not count towards the stop threshold)
 var knownReported int32
+var knownReportedDB int32
 
 func stopNow(res *vlib.Result) bool { return res.NViolations()-int(atomic.LoadInt32(&knownReported)) >= 18 }
 
